@@ -460,7 +460,7 @@ func (vm *VM) equals(x, y reflect.Value) bool {
 	}
 	if t, ok := tx.(ScriggoType); ok {
 		if !tx.Comparable() {
-			panic("runtime error: comparing uncomparable type " + tx.String())
+			panic(runtimeError("runtime error: comparing uncomparable type " + tx.String()))
 		}
 		x, _ = t.Unwrap(x)
 		y, _ = t.Unwrap(y)
